@@ -215,6 +215,56 @@ def set_early_exit(which: int, a: int) -> bool:
     return code != 0 and fs.mutating_ops() == [] and fs.files == {"f.yaml": ORIG}
 
 
+MERGE_FAILS = ["array into hash", "scalar into hash", "anchor conflict (stop)", "hash into set", "unmatched mergeat search"]
+
+
+def merge_early_exit(which: int, overwrite: bool, a: int) -> bool:
+    """yaml-merge main() ends non-zero for a merge/anchor conflict: nothing is written, copied or removed."""
+    from ruamel.yaml.scalarstring import PlainScalarString
+    from vf.common import cset
+    which = realize(which)
+    mergeat = "/"
+    if which == 0:
+        lhs, rhs = cmap(("k", cmap(("p", a)))), cmap(("k", cseq(1)))
+    elif which == 1:
+        lhs, rhs = cmap(("k", a)), 5
+    elif which == 2:
+        lhs = cmap(("x", PlainScalarString("one", anchor="anc")))
+        rhs = cmap(("y", PlainScalarString("two", anchor="anc")))
+    elif which == 3:
+        lhs, rhs = cmap(("s", cset("m"))), cmap(("s", cmap(("p", a))))
+    else:
+        lhs, rhs = cmap(("w", cseq(cmap(("p", a))))), cmap(("q", 1))
+        mergeat = "/w[p>100]"
+    target = "out.yaml"
+    fs = FakeFS({"l.yaml": b"L", "r.yaml": b"R", target: ORIG} if overwrite else {"l.yaml": b"L", "r.yaml": b"R"})
+    args = SimpleNamespace(quiet=True, verbose=False, debug=False, output=None if overwrite else target,
+                           overwrite=target if overwrite else None, backup=overwrite, yaml_files=["l.yaml", "r.yaml"],
+                           config=None, mergeat=mergeat, nostdin=True, json_indent=2, document_format="auto", hashes=None,
+                           arrays=None, aoh=None, sets=None, anchors="stop", multi_doc_mode="condense_all",
+                           preserve_lhs_comments=False)
+    docs = {"l.yaml": lhs, "r.yaml": rhs}
+    saved = (ym.processcli, Parsers.get_yaml_multidoc_data)
+    ym.processcli = lambda: args
+    Parsers.get_yaml_multidoc_data = staticmethod(lambda parser, logger, source, **kw: iter([(docs[source], True)]))
+    code = 0
+    try:
+        with _patched(ym, fs, {"access": lambda p, m: True}), \
+                contextlib.redirect_stdout(io.StringIO()), contextlib.redirect_stderr(io.StringIO()):
+            try:
+                ym.main()
+            except SystemExit as ex:
+                code = ex.code if ex.code is not None else 0
+    finally:
+        (ym.processcli, Parsers.get_yaml_multidoc_data) = saved
+    note(cause=MERGE_FAILS[which], overwrite=overwrite, exit_status=code, mutating_ops=fs.mutating_ops(), files=sorted(fs.files))
+    if code == 0 or fs.mutating_ops() != []:
+        return False
+    if overwrite:
+        return fs.files.get(target) == ORIG and (target + ".bak") not in fs.files
+    return target not in fs.files
+
+
 def merge_existing_output(exists_flag: bool) -> bool:
     """yaml-merge --output never replaces an existing file: refused during argument validation."""
     fs = FakeFS({"out.yaml": ORIG} if exists_flag else {})
@@ -253,6 +303,10 @@ def shards(tier, seed):
     out.append(shard(PID, "early/set", "harness.c17", "set_early_exit(which, a)", [("which", "int"), ("a", "int")],
                      ["0 <= which < %d" % len(SET_FAILS), "-9 <= a <= 9"], family="early/set", budget=900,
                      desc="yaml-set main(): %d failure causes detected before writing" % len(SET_FAILS)))
+    out.append(shard(PID, "early/merge", "harness.c17", "merge_early_exit(which, overwrite, a)",
+                     [("which", "int"), ("overwrite", "bool"), ("a", "int")], ["0 <= which < %d" % len(MERGE_FAILS), "-9 <= a <= 9"],
+                     family="early/merge", budget=900,
+                     desc="yaml-merge main(): %d merge/anchor conflicts, --output or --overwrite --backup" % len(MERGE_FAILS)))
     out.append(shard(PID, "early/merge_output", "harness.c17", "merge_existing_output(exists_flag)", [("exists_flag", "bool")],
                      [], family="early/merge", budget=300, desc="yaml-merge --output refuses an existing file"))
     return out
